@@ -53,6 +53,11 @@ ASSUMPTIONS = [
     "tags are lists of str (or absent) on the writer side; on the reader side any JSON value whose effect on str(record) is determined "
     "(null, string, list of strings, numbers, booleans); nested arrays / objects / non-integral floats where a member is interpreted are "
     "outside the model (counted as outside-model); the file is read after the handler was closed",
+    "writer level gates: every run goes through setup_logging(level, logger_name = root or 'gallia') and add_zst_log_handler('gallia', ..., "
+    "file_log_level) in a fresh process with GALLIA_LOGLEVEL unset (level=None then means DEBUG) and logging.disable untouched; records are "
+    "logged on 'gallia' and its descendants (loggers created by get_logger stay at NOTSET); Logger.isEnabledFor / getEffectiveLevel / "
+    "QueueHandler / QueueListener(respect_handler_level) are represented by their contracts (Model/PenlogGate.lean); a logger level set by "
+    "user code after setup_logging is outside the model",
     "standard input is a pipe (read once: a second `-` sees nothing); files the process may not read are not exercised (the check runs as "
     "root); hr's output is compared without colours (--color is parsed into the plan, ANSI styling is not modelled), month names as in "
     "the C locale",
@@ -1035,6 +1040,177 @@ def part_burst(env, ctx, k):
                      {"burst": k}, impl={"len": n, "read": len(texts)}, model={"len": k}, spec_violated=True, site="add_zst_log_handler / _ZstdFileHandler")
 
 
+# ------------------------------------------------------------------------------------------------------------
+# writer gates: setup_logging(console level) -> add_zst_log_handler(file level) -> records of every level -> file
+# (each run in a fresh process: setup_logging takes over a logger, starts listener threads and registers atexit hooks)
+
+GATE_LEVELS = [5, 10, 20, 25, 30, 40, 50]
+LEVEL_METHOD = {5: "trace", 10: "debug", 20: "info", 25: "notice", 30: "warning", 40: "error", 50: "critical"}
+GATE_LOGGERS = ["gallia", "gallia.c17", "gallia.c17.sub.leaf"]
+GATE_CHILD = Path(__file__).resolve().parent.parent / "lib" / "c17gate_child.py"
+
+
+def gate_configs(rng, wide):
+    """(name, console part, file part) in a fixed order: every console level (explicit, through get_log_level(verbose), and
+    level=None) x file level with / without --trace-log as get_file_log_level derives it x the logger setup_logging takes
+    over (the root logger as cli/gallia.py does, and its default "gallia"); then explicit file levels (sampled)"""
+    consoles = [{"console": None, "verbose": v} for v in (0, 1, 2, 3)] + [{"console": l, "verbose": None} for l in GATE_LEVELS] + [
+        {"console": None, "verbose": None}]
+    out = []
+    for name in ("", "gallia"):
+        for c in consoles:
+            files = [{"file": None, "trace_log": True}, {"file": None, "trace_log": False}]
+            if c["verbose"] is not None:
+                files.append({"file": None, "trace_log": None})
+            for f in files:
+                out.append((name, c, f))
+    extra = [(name, c, {"file": l, "trace_log": None}) for name in ("", "gallia") for c in consoles for l in GATE_LEVELS]
+    out += extra if wide else rng.sample(extra, 10)
+    return out
+
+
+def gate_records(rng, simple=None):
+    if simple is not None:
+        return [["gallia.c17", LEVEL_METHOD[l], f"m{i}"] for i, l in enumerate(simple)]
+    lv = GATE_LEVELS + [rng.choice(GATE_LEVELS) for _ in range(rng.randint(0, 6))]
+    rng.shuffle(lv)
+    recs = []
+    for l in lv:
+        m = LEVEL_METHOD[l] if l != 25 or rng.random() < 0.7 else "result"
+        text = gen_text(rng, 12, rng.choice(["ascii", "mixed", "newlines", "inject"])).encode("utf-8", "replace").decode()
+        recs.append([rng.choice(GATE_LOGGERS), m, text])
+    return recs
+
+
+def gate_spec(cfg, records):
+    name, c, f = cfg
+    return {"name": name, **c, **f, "records": records}
+
+
+def gate_child(env, spec):
+    env.n += 1
+    d = env.root / f"gate{env.n}"
+    d.mkdir()
+    envp = {k: v for k, v in os.environ.items() if k != "GALLIA_LOGLEVEL"}
+    envp.update({"PYTHONPATH": str(REPO / "src"), "PYTHONUTF8": "1", "NO_COLOR": "1"})
+    try:
+        pr = subprocess.run([PY, str(GATE_CHILD)], input=json.dumps({**spec, "path": str(d / "log.json.zst")}).encode(),
+                            stdout=subprocess.PIPE, stderr=subprocess.PIPE, env=envp, timeout=60)
+        try:
+            return json.loads(pr.stdout.decode().strip().split("\n")[-1])
+        except ValueError:
+            return {"error": f"exit-{pr.returncode}: " + pr.stderr.decode("utf-8", "replace").strip().split("\n")[-1][:200]}
+    except subprocess.TimeoutExpired:
+        return {"error": "timeout"}
+    finally:
+        shutil.rmtree(d, ignore_errors=True)
+
+
+def gate_eval(env, specs):
+    """runs the specs (fresh process each, 8 at a time) and the model; returns per spec (result, oracle, model, verdict)"""
+    from concurrent.futures import ThreadPoolExecutor
+
+    dirs_before = env.n
+    env.n += len(specs) + 1
+    def one(i_spec):
+        i, spec = i_spec
+        e2 = type("E", (), {"n": dirs_before + i, "root": env.root})()
+        return gate_child(e2, spec)
+    with ThreadPoolExecutor(8) as ex:
+        results = list(ex.map(one, enumerate(specs)))
+    lines = []
+    for spec, r in zip(specs, results):
+        v = "n" if spec.get("verbose") is None else str(spec["verbose"])
+        t = {True: "t", False: "f", None: "n"}[spec.get("trace_log")]
+        lines += [f"conlvl {v}", f"filelvl {t} {v}"]
+        mc = spec["console"] if spec["console"] is not None else r.get("console") or 10
+        mf = spec["file"] if spec["file"] is not None else r.get("file") or 10
+        recs = ",".join(f"{len(ln.split('.')) - (1 if spec['name'] == 'gallia' else 0)}:{METHOD_LEVEL[m]}" for ln, m, _ in spec["records"])
+        lines.append(f"gate {mc} {mf} {recs or '-'}")
+    res = env.ctx.lean(lines)
+    out = []
+    for k, (spec, r) in enumerate(zip(specs, results)):
+        m_con, m_file, m_flags = res[3 * k], res[3 * k + 1], res[3 * k + 2]
+        if "error" in r:
+            out.append((r, None, None, ("impl", "raises", r["error"])))
+            continue
+        # the levels the run has, as the model derives them from the options (verbose None + console None: DEBUG)
+        want_con = spec["console"] if spec["console"] is not None else (int(m_con) if spec.get("verbose") is not None else 10)
+        want_file = spec["file"] if spec["file"] is not None else int(m_file)
+        verdict = None
+        if r["console"] is not None and r["console"] != want_con:
+            verdict = ("tie", "console-level", f"get_log_level gives {r['console']}, the model {want_con}")
+        elif r["file"] != want_file:
+            verdict = ("tie", "file-level", f"get_file_log_level gives {r['file']}, the model {want_file}")
+        oracle = [[METHOD_LEVEL[m], text, ln, ORACLE_PRIO[METHOD_LEVEL[m]]] for ln, m, text in spec["records"] if METHOD_LEVEL[m] >= r["file"]]
+        model = [rec for rec, fl in zip(spec["records"], m_flags[1:]) if fl == "1"]
+        model = [[METHOD_LEVEL[m], text, ln, ORACLE_PRIO[METHOD_LEVEL[m]]] for ln, m, text in model]
+        if verdict is None and (model != oracle or len(m_flags) - 1 != len(spec["records"])):
+            verdict = ("tie", "model-gate", "the gate model keeps other records than those at or above the file level")
+        if verdict is None and (r["read"] != oracle or r["len"] != len(oracle)):
+            lv_o = [x[0] for x in oracle]
+            lv_r = [x[0] for x in r["read"]]
+            missing = sorted({l for l in lv_o if lv_r.count(l) < lv_o.count(l)})
+            extra = sorted({l for l in lv_r if lv_r.count(l) > lv_o.count(l)})
+            sig = "missing-records" if missing and not extra else "extra-records" if extra and not missing else "wrong-records"
+            verdict = ("impl", sig, f"logged levels {[METHOD_LEVEL[m] for _, m, _ in spec['records']]}: the file holds {lv_r} (len {r['len']}), "
+                                    f"expected every record at or above the file level {r['file']}: {lv_o}"
+                                    + (f"; missing levels {missing}" if missing else "") + (f"; unexpected levels {extra}" if extra else ""))
+        out.append((r, oracle, model, verdict))
+    return out
+
+
+def _gate_descr(spec, r):
+    con = r.get("console") if spec["console"] is None else spec["console"]
+    how_c = f"verbose={spec['verbose']}" if spec.get("verbose") is not None else "level=None" if spec["console"] is None else "explicit"
+    how_f = f"trace_log={spec['trace_log']}" if spec.get("trace_log") is not None else "explicit" if spec["file"] is not None else "no trace_log attribute"
+    return (f"setup_logging(level={con} [{how_c}], logger_name={spec['name']!r}) + add_zst_log_handler('gallia', ..., "
+            f"file_log_level={r.get('file', spec['file'])} [{how_f}])")
+
+
+def part_gate(env, ctx):
+    rng = ctx.rng
+    cfgs = gate_configs(rng, ctx.widened or not ctx.quick)
+    specs = [gate_spec(cfg, gate_records(rng)) for cfg in cfgs]
+    specs += [gate_spec(cfgs[i], []) for i in (0, 1)]  # a run that logs nothing
+    results = gate_eval(env, specs)
+    first = None
+    failing = 0
+    for spec, (r, oracle, model, verdict) in zip(specs, results):
+        ctx.ev()
+        ctx.kind("gate:logger=" + (spec["name"] or "root"), f"gate:console={r.get('console')}", f"gate:file={r.get('file')}")
+        ctx.nontrivial(("gate", json.dumps(spec, sort_keys=True)))
+        ctx.traces_validated += 1
+        if verdict is not None:
+            failing += 1
+            if first is None:
+                first = (spec, r, oracle, verdict)
+    ctx.exhaustive_parts.append("writer gates, a fresh process per run: setup_logging on the root logger / on 'gallia' x console level {every Loglevel, "
+                                "get_log_level(0..3), None} x file level {--trace-log, no --trace-log, derived from verbose} (+ explicit file levels, "
+                                "sampled in the quick tier) x records of all 7 levels on 'gallia' and descendants: the file read back = the records at or above the file level")
+    if first is None:
+        return
+    spec, r, oracle, verdict = first
+    cfg = (spec["name"], {"console": spec["console"], "verbose": spec.get("verbose")}, {"file": spec["file"], "trace_log": spec.get("trace_log")})
+    # canonical small case: the same run, one simple record; the first level (fixed order) that shows the same verdict
+    singles = [gate_spec(cfg, gate_records(rng, [l])) for l in GATE_LEVELS] + [gate_spec(cfg, gate_records(rng, GATE_LEVELS))]
+    hit = None
+    for sp, (r2, o2, m2, v2) in zip(singles, gate_eval(env, singles)):
+        if v2 is not None and v2[:2] == verdict[:2]:
+            hit = (sp, r2, o2, v2)
+            break
+    if hit is None:
+        hit = (spec, r, oracle, verdict)
+    sp, r2, o2, v2 = hit
+    con = r2.get("console") if sp["console"] is None else sp["console"]
+    key = (f"writer:gate:{v2[1]}:logger={sp['name'] or 'root'}:console={con}:file={r2.get('file', sp['file'])}:"
+           f"levels={'+'.join(str(METHOD_LEVEL[m]) for _, m, _ in sp['records']) or 'none'}")
+    ctx.disagree(key, f"{_gate_descr(sp, r2)}: {v2[2]}" + (f" ({failing} of {len(specs)} runs differ)" if failing > 1 else ""),
+                 {"kind": "gate", "spec": sp, "first_seen": _gate_descr(spec, r)},
+                 impl={"file_records": r2.get("read"), "len": r2.get("len"), "error": r2.get("error")}, model={"file_records": o2},
+                 spec_violated=v2[0] == "impl", site="setup_logging / add_zst_log_handler / get_file_log_level")
+
+
 def run(ctx):
     env = Env(ctx)
     rng = ctx.rng
@@ -1045,6 +1221,7 @@ def run(ctx):
     t0 = time.time()
     try:
         part_levels(env, ctx)
+        part_gate(env, ctx)
         part_escape(env, ctx)
 
         def go(calls, plan, label):
@@ -1131,6 +1308,15 @@ def replay(ctx, case):
         c = case.get("case", case)
         if c.get("kind") == "hr2":
             return c17ext.replay_hr2(env, ctx, c, env.write_log)
+        if c.get("kind") == "gate":
+            (r, oracle, _model, verdict), = gate_eval(env, [c["spec"]])
+            print(json.dumps(c["spec"], indent=1)[:4000])
+            print(_gate_descr(c["spec"], r))
+            if verdict is None:
+                print("implementation and oracle agree on this case")
+                return 0
+            print(f"DISAGREE [writer:gate:{verdict[1]}] {verdict[2]}\n  impl  : {r.get('read', r.get('error'))}\n  oracle: {oracle}")
+            return 1
         if "plan" not in c:
             print(json.dumps(c, indent=1)[:4000])
             print("this case is a single call of a small function; see `what`, `impl` and `model` of the replay file")
@@ -1155,7 +1341,12 @@ MANIFEST = {
                    "without the <prio> prefix, and the prefix priority equals the record's; level <-> priority is a bijection on the "
                    "7 levels (table regenerated from the live enums); forward / reverse / offset k / tail n / head n / len over the "
                    "offset table equal filter, reverse, drop, drop (len - n), take, length of the logged sequence for all logs, also "
-                   "shorter than n and empty. Schema: a logging.LogRecord (any of the 7 levels incl. TRACE / NOTICE, tags present / empty / "
+                   "shorter than n and empty. Writer gates (file_gets_every_record_at_or_above_file_level): for every console level of "
+                   "setup_logging, every file level >= 1 and every sequence of records on the configured logger or any descendant the file "
+                   "gets exactly the records at or above the FILE level, in order (with --trace-log: all of them, trace_log_file_gets_all); "
+                   "tied by runs of the real setup_logging + add_zst_log_handler + PenlogReader in fresh processes over every console level "
+                   "(explicit, get_log_level(0..3), None) x file level (get_file_log_level with / without --trace-log, explicit) x root / "
+                   "'gallia' logger. Schema: a logging.LogRecord (any of the 7 levels incl. TRACE / NOTICE, tags present / empty / "
                    "absent, exception text, timestamp with microseconds and any whole-second UTC offset) through QueueHandler.prepare, "
                    "_JSONFormatter.format and emit is read back by parse_json as exactly the expected PenlogRecord, all members "
                    "(record_roundtrip); isoformat is inverted by a port of CPython's fromisoformat for every valid datetime; the "
